@@ -140,6 +140,8 @@ type c20Inputs struct {
 	ADTS   []byte
 	Key    []byte // shared key
 	IVBuf  []byte // 24 bytes; an 8-byte IV is the sub-slice IVBuf[:8] (spare capacity behind it)
+	ClearL []byte // Clear with 64-bit mdat headers
+	EncL   []byte // ClearL encrypted with cenc
 }
 
 var c20Pristine c20Inputs
@@ -177,6 +179,24 @@ func c20Setup() {
 		if h, err := aac.NewADTSHeader(48000, 2, 2, 100); err == nil {
 			p.ADTS = h.Encode()
 		}
+		// the same file with 64-bit mdat headers (re-encoded by the library) and its encryption
+		if lf, err := mp4.DecodeFile(bytes.NewReader(p.Clear)); err == nil {
+			for _, sg := range lf.Segments {
+				for _, fr := range sg.Fragments {
+					fr.Mdat.LargeSize = true
+				}
+			}
+			var w bytes.Buffer
+			if err := lf.Encode(&w); err != nil {
+				vf.Harness("c20: large-size re-encode: %v", err)
+			}
+			p.ClearL = w.Bytes()
+			if p.EncL, err = c06Encrypt(p.ClearL, cs); err != nil {
+				vf.Harness("c20: encrypt (large): %v", err)
+			}
+		} else {
+			vf.Harness("c20: %v", err)
+		}
 		p.Key, _ = hexDecode(c20Key)
 		p.IVBuf, _ = hexDecode("7766554433221100a0a1a2a3a4a5a6a7b0b1b2b3b4b5b6b7")
 	})
@@ -184,12 +204,12 @@ func c20Setup() {
 
 func (in *c20Inputs) clone() *c20Inputs {
 	cp := func(b []byte) []byte { return append([]byte{}, b...) }
-	return &c20Inputs{cp(in.Clear), cp(in.Enc), cp(in.EncCb), cp(in.Stream), cp(in.SPS), cp(in.PPS), cp(in.Slice), cp(in.HSPS), cp(in.SEI), cp(in.ADTS), cp(in.Key), cp(in.IVBuf)}
+	return &c20Inputs{cp(in.Clear), cp(in.Enc), cp(in.EncCb), cp(in.Stream), cp(in.SPS), cp(in.PPS), cp(in.Slice), cp(in.HSPS), cp(in.SEI), cp(in.ADTS), cp(in.Key), cp(in.IVBuf), cp(in.ClearL), cp(in.EncL)}
 }
 
 func (in *c20Inputs) digest() string {
 	h := sha1.New()
-	for _, b := range [][]byte{in.Clear, in.Enc, in.EncCb, in.Stream, in.SPS, in.PPS, in.Slice, in.HSPS, in.SEI, in.ADTS, in.Key, in.IVBuf} {
+	for _, b := range [][]byte{in.Clear, in.Enc, in.EncCb, in.Stream, in.SPS, in.PPS, in.Slice, in.HSPS, in.SEI, in.ADTS, in.Key, in.IVBuf, in.ClearL, in.EncL} {
 		h.Write(b)
 		h.Write([]byte{0xff})
 	}
@@ -415,6 +435,58 @@ func c20Bodies() []c20Body {
 				}
 				t.Point()
 				_ = s.Encode(wr(&out, t, fine))
+			}
+			return obs(out.Bytes())
+		}},
+		{Name: "DecodeFile(bytes.Buffer over the shared bytes, 64-bit mdat header)-Encrypt(cenc)-Encode", Run: func(in *c20Inputs, t *sched.T, fine bool) string {
+			// the reader type is the point: a *bytes.Buffer hands out sub-slices of its storage, which here is the shared input
+			key, _ := hexDecode(c20Key)
+			iv, _ := hexDecode(c06IVs[1])
+			t.Point()
+			f, err := mp4.DecodeFile(bytes.NewBuffer(in.ClearL))
+			if err != nil {
+				return obs("err", err)
+			}
+			t.Point()
+			kid, _ := mp4.NewUUIDFromString("11112222333344445555666677778888")
+			ipd, err := mp4.InitProtect(f.Init, key, iv, "cenc", kid, nil)
+			if err != nil {
+				return obs("err", err)
+			}
+			for _, s := range f.Segments {
+				for _, fr := range s.Fragments {
+					t.Point()
+					if err := mp4.EncryptFragment(fr, key, iv, ipd); err != nil {
+						return obs("err", err)
+					}
+				}
+			}
+			t.Point()
+			var out bytes.Buffer
+			err = f.Encode(wr(&out, t, fine))
+			return obs(out.Bytes(), err)
+		}},
+		{Name: "DecodeFile(bytes.Buffer over the shared bytes, 64-bit mdat header)-Decrypt-Encode", Run: func(in *c20Inputs, t *sched.T, fine bool) string {
+			t.Point()
+			f, err := mp4.DecodeFile(bytes.NewBuffer(in.EncL))
+			if err != nil {
+				return obs("err", err)
+			}
+			t.Point()
+			di, err := mp4.DecryptInit(f.Init)
+			if err != nil {
+				return obs("err", err)
+			}
+			var out bytes.Buffer
+			w := wr(&out, t, fine)
+			_ = f.Init.Encode(w)
+			for _, s := range f.Segments {
+				t.Point()
+				if err := mp4.DecryptSegment(s, di, in.Key); err != nil {
+					return obs("err", err)
+				}
+				t.Point()
+				_ = s.Encode(w)
 			}
 			return obs(out.Bytes())
 		}},
